@@ -178,6 +178,19 @@ FetchRefused(r, m) ==
   /\ res' = [kind |-> "fetch", r |-> r]
   /\ UNCHANGED <<commits, nops, ref, trk, hub, clk>>
 
+(* A history nobody's git-bug wrote turns up as a remote-tracking ref of a new bug (what a fetch from a remote holding rubbish
+   leaves behind; the remote itself is outside the model): a root that carries no creation time, which no reader accepts.  Merging
+   it reports it invalid - and the merges of the other remote-tracking bugs go on as if it were not there. *)
+PlantForeign(r, m, rk) ==
+  /\ NextBug \in Bugs
+  /\ LET b == NextBug
+         new == [par |-> <<>>, et |-> 1, ct |-> 0, au |-> CHOOSE a \in Author : TRUE, ops |-> <<nops + 1>>, rank |-> rk[Len(commits) + 1], bug |-> b] IN
+     /\ commits' = Append(commits, new)
+     /\ nops' = nops + 1
+     /\ trk' = [trk EXCEPT ![r][m][b] = Len(commits) + 1]
+     /\ res' = [kind |-> "plant", r |-> r, b |-> b]
+  /\ UNCHANGED <<ref, hub, clk>>
+
 (* merge() of one remote-tracking ref, the five scenarios of entity_actions.go.  The entity handed back with
    "new" / "updated" must be the merged result (C02). *)
 MergeRes(r, m, b, st, pre, ops) ==
